@@ -190,6 +190,35 @@ theorem classify_example_full :
     rfl
   simp [classify, paddedSizes, lamf, h, nativeZero]
 
+/-! ## mirrored uv grids (negative focal spacing or negative `λ f` on an axis) are not FFT grids -/
+
+theorem paddedSize_none_of_neg {lf δ Δ : ℚ} (N : ℕ) (h : lf / (δ * Δ) < 0) : paddedSize lf δ Δ N = none := by
+  unfold paddedSize
+  dsimp only
+  split_ifs with h0 h1
+  · rfl
+  · exfalso
+    have : (0 : ℚ) < lf / (δ * Δ) := Rat.num_pos.mp h1.2.1
+    linarith
+  · rfl
+
+/-- a uv grid mirrored on the x axis (`λf/(δx·Δx) < 0`) is never classified as an FFT grid -/
+theorem classify_other_of_mirrored_x {s : Setup} {focal : RegGrid} {δx δy Δx Δy zx zy Zx Zy : ℚ} {Nx Ny Mox Moy : ℕ}
+    (hp : s.pupil = ⟨[δx, δy], [Nx, Ny], [zx, zy]⟩) (hf : focal = ⟨[Δx, Δy], [Mox, Moy], [Zx, Zy]⟩)
+    (h : lamf s / (δx * Δx) < 0) : (classify s focal).1 = .other := by
+  subst hf
+  unfold classify paddedSizes
+  rw [hp]
+  simp [paddedSize_none_of_neg Nx h]
+
+theorem classify_other_of_mirrored_y {s : Setup} {focal : RegGrid} {δx δy Δx Δy zx zy Zx Zy : ℚ} {Nx Ny Mox Moy : ℕ}
+    (hp : s.pupil = ⟨[δx, δy], [Nx, Ny], [zx, zy]⟩) (hf : focal = ⟨[Δx, Δy], [Mox, Moy], [Zx, Zy]⟩)
+    (h : lamf s / (δy * Δy) < 0) : (classify s focal).1 = .other := by
+  subst hf
+  unfold classify paddedSizes
+  rw [hp]
+  cases hx : paddedSize (lamf s) δx Δx Nx <;> simp [hx, paddedSize_none_of_neg Ny h]
+
 /-! ## `make_focal_grid_from_pupil_grid` builds a full conjugate -/
 
 theorem floor_le_roundHalfEven (q : ℚ) : q.floor ≤ roundHalfEven q := by
